@@ -21,12 +21,14 @@
 namespace {
 
 struct OpSpec {
-  char kind;  // i increment, s set, r reset, g getAll
+  char kind;  // i increment, s set, r reset, g getAll; G / R = the same through a real socket session (StatsClient)
   std::string key;
   int val;
   std::string str() const {
     if (kind == 'i') return "inc(" + key + "," + std::to_string(val) + ")";
     if (kind == 's') return "set(" + key + "," + std::to_string(val) + ")";
+    if (kind == 'G') return "socket 'g'";
+    if (kind == 'R') return "socket 'r'";
     return kind == 'r' ? "reset()" : "getAll()";
   }
 };
@@ -90,9 +92,9 @@ bool linearizable(const std::vector<std::vector<OpSpec>>& progs, const std::vect
       std::string res = "0";
       if (sp.kind == 'i') m[sp.key] += sp.val;
       if (sp.kind == 's') m[sp.key] = sp.val;
-      if (sp.kind == 'r')
+      if (sp.kind == 'r' || sp.kind == 'R')
         for (auto& kv : m) kv.second = 0;
-      if (sp.kind == 'g') {
+      if (sp.kind == 'g' || sp.kind == 'G') {
         res = "{";
         for (auto& kv : m) res += kv.first + "=" + std::to_string(kv.second) + ",";
         res += "}";
@@ -134,6 +136,19 @@ struct C19 : vr::Driver {
     // a key that does not exist yet (first increment creates it)
     L("first increments of a new key", {{{'i', "c", 1}}, {{'i', "c", 2}, ga}, {{'i', "c", 4}}});
     L("new key: inc vs set vs reset", {{{'i', "c", 1}, ga}, {{'s', "c", 5}}, {rs, {'i', "c", 1}}});
+    // values served over the socket are part of the same sequential order as the API calls
+    OpSpec G{'G', "", 0}, R{'R', "", 0};
+    {
+      int save = pb;
+      pb = th ? 2 : 1;
+      L("socket reader twice vs incrementer", {{ia}, {G, G}});
+      L("socket reader vs set then API read", {{sa, ga}, {G}});
+      if (th) {
+        L("socket reset vs incrementer", {{ia, ga}, {R, G}});
+        L("two socket readers vs incrementer", {{ia, ia}, {G}, {G}});
+      }
+      pb = save;
+    }
     if (th) {
       L("three incrementers", {{ia, ia}, {ia, ia}, {ia, ga}});
       L("reset vs new key", {{ib, ga}, {rs, {'i', "c", 4}}, {ga, ga}});
@@ -223,6 +238,15 @@ struct C19 : vr::Driver {
             if (o.kind == 's') res = std::to_string(stats->set(o.key, o.val));
             if (o.kind == 'r') res = std::to_string(stats->reset());
             if (o.kind == 'g') res = mapStr(stats->getAll());
+            if (o.kind == 'G') {
+              Oomd::StatsClient cl(path);
+              auto m = cl.getStats();
+              res = m ? mapStr(*m) : "<no reply>";
+            }
+            if (o.kind == 'R') {
+              Oomd::StatsClient cl(path);
+              res = std::to_string(cl.resetStats());
+            }
             ev.push_back({(int)t, (int)k, false, res});
           }
         });
@@ -250,7 +274,7 @@ struct C19 : vr::Driver {
       ::unlink(path.c_str());
       std::string ob = final + "|";
       for (auto& e : ev)
-        if (!e.call && c.progs[e.thread][e.op].kind == 'g') ob += e.result;
+        if (!e.call && (c.progs[e.thread][e.op].kind == 'g' || c.progs[e.thread][e.op].kind == 'G')) ob += e.result;
       r.obs = ob;
     };
   }
